@@ -128,6 +128,12 @@ impl Qcow2Info {
         self.cluster_size() / std::mem::size_of::<u64>()
     }
 
+    /// block size of the device requests are aligned to
+    #[inline(always)]
+    pub fn block_size(&self) -> usize {
+        1 << self.block_size_shift
+    }
+
     #[inline(always)]
     pub fn virtual_size(&self) -> u64 {
         self.virtual_size
